@@ -45,8 +45,10 @@ def run(ctx):
             ctx.nontriv("%s/%s" % (rr["id"], rr["variant"]))
         if not rr["ok"]:
             rp = dict(scns[rr["id"]])
-            rp["cut"], rs = rr["variant"].split("/")
+            parts = rr["variant"].split("/") + ["8192", "false"]
+            rp["cut"], rs, rt = parts[0], parts[1], parts[2]
             rp["readsize"] = int(rs)
+            rp["retry"] = rt == "true"
             st = confirmed.setdefault(rr["sig"], {"ok": 0, "tries": 0})
             if st["ok"]:
                 ctx.violation(rr["sig"], rr["detail"], rp)
